@@ -562,9 +562,56 @@ def unit_provenance(ctx):
     _check_equal(ctx, f, r, inst)
 
 
+def unit_export_options(ctx):
+    """``to_xarray(name=..., unit=...)``: the options label THIS DataArray.  The field keeps its own unit, a later plain
+    export is what a fresh field exports, and the DataArray exported with options still imports to an equal field (values,
+    mesh, labels; the unit of the import is the DataArray's)."""
+    n = ctx.choose("n", [(3,), (2, 3), (2, 3, 2)])
+    nvdim = ctx.choose("nvdim", [1, 3])
+    own = ctx.choose("field-unit", ["A/m", None])
+    opt = ctx.choose("options", [{"unit": "T"}, {"name": "m", "unit": "J/m3"}, {"name": "m"}, {"unit": ""}])
+    later = ctx.choose("then", ["plain-export", "export-with-other-unit-then-plain"])
+    fam = FAM_Q[0]
+    f = _field(n, fam, nvdim, "default", "float64", ctx.seed, unit=own)
+    fresh = _field(n, fam, nvdim, "default", "float64", ctx.seed, unit=own)
+    before = C.field_snap(f)
+    inst = ctx.key()
+    ctx.step(1, f"to_xarray({opt})")
+    xa = f.to_xarray(**opt)
+    ctx.check(2)
+    # (what the options do to THIS DataArray is documented in the docstring, not in the statement: recorded only)
+    if "unit" in opt and xa.attrs.get("units") != opt["unit"]:
+        ctx.note("unit-option-not-carried:" + repr(opt["unit"]))
+    if "name" in opt and xa.name != opt["name"]:
+        ctx.note("name-option-not-carried")
+    if C.field_snap(f) != before or f.unit != own:
+        ctx.fail("Field.to_xarray/options-modified-the-field", f"field.unit is now {f.unit!r} (was {own!r})", instance=inst)
+        return
+    if later != "plain-export":
+        f.to_xarray(unit="kg")
+        ctx.step(1)
+    ctx.step(2, "plain to_xarray of the same field and of a fresh one")
+    x2, x3 = f.to_xarray(), fresh.to_xarray()
+    ctx.check()
+    ctx.observe(str(x2.attrs.get("units")), x2.name)
+    if _xa_snap(x2) != _xa_snap(x3) or x2.name != x3.name:
+        ctx.fail("Field.to_xarray/plain-export-differs-after-an-export-with-options",
+                 f"units {x2.attrs.get('units')!r} name {x2.name!r}; a fresh field exports units {x3.attrs.get('units')!r} name {x3.name!r}",
+                 instance=inst)
+    ctx.step(1, "from_xarray(export with options)")
+    raised, r = C.raises(df.Field.from_xarray, xa)
+    ctx.check()
+    if raised:
+        ctx.fail("Field.from_xarray/export-with-options-not-importable", f"{type(r).__name__}: {str(r)[:120]}", instance=inst)
+        return
+    if not (np.array_equal(r.array, f.array) and r.mesh == f.mesh and r.vdims == f.vdims):
+        ctx.fail("Field.from_xarray/export-with-options-imports-to-another-field", "", instance=inst)
+
+
 def units(tier):
     return [
         {"name": "export", "fn": unit_export, "bound": None},
+        {"name": "export_options", "fn": unit_export_options, "bound": None},
         {"name": "strip", "fn": unit_strip, "bound": None},
         {"name": "reject_uneven", "fn": unit_reject_uneven, "bound": None},
         {"name": "reject_other", "fn": unit_reject_other, "bound": None},
